@@ -6,7 +6,7 @@ From Verif Require Export C06.Model C06.TreeModel.   (* the generated case files
 
 (* wire label (tag, (i, (k, v))): tag 0 = the fan-out's next consumer call; 1 = consumer i appends
    marker v; 2 = consumer i sets entry k to v; 3 = consumer i removes the entries with marker v;
-   4 = the caller's context ends (cancel / deadline) *)
+   4 = the caller's context ends (cancel / deadline); 5 = consumer i rotates the entries (first one to the end) *)
 Definition wlabel := (nat * (nat * (nat * Z)))%type.
 
 Definition label_of (x : wlabel) : label :=
@@ -16,6 +16,7 @@ Definition label_of (x : wlabel) : label :=
   | 1 => LWrite i (WAppend v)
   | 2 => LWrite i (WSet k v)
   | 3 => LWrite i (WRemove v)
+  | 5 => LWrite i (WFun rotate)
   | _ => LCancel
   end.
 
@@ -51,22 +52,49 @@ Definition wev_eqb (a b : wev) : bool :=
          (the model is the same for the four files; the tag only labels the case).
    CPipe sig procs exps | observed: MutatesData advertised by the pipeline's capabilitiesNode in a
          graph built by service/internal/graph.Build.
-   CGraph sig tree | the consumer tree of a graph built by graph.Build (children of every fan-out in the order
+   CGraph sig ro_in tree | (ro_in: the receiver marked the payload read-only before handing it over) the consumer tree of a graph built by graph.Build (children of every fan-out in the order
          the implementation delivered to them — map iteration order of the graph library, read off the run);
          observed: per component in delivery order (id, 2*cell + IsReadOnly, markers seen on arrival) and
          (id, markers finally in the payload it holds).  One payload is pushed; every declared-mutating
          component writes its id as a marker.
+   CSess sig caps script | several deliveries through the SAME fan-out object (sequential, or started re-entrantly
+         while an earlier one is in progress), with writes on payloads retained from earlier deliveries; observed per
+         delivery: events (cell numbers local to the delivery: 0 = its caller payload, then by first appearance; a
+         payload already seen in another delivery gets 500+), final content per consumer, IsReadOnly of the caller
+         payload, returned error leaves.
    CRouter sig pipe_caps sel | observed: MutatesData of connector router.Consumer(sel...), of the router
          itself (fan-out over all pipelines), and the pipelines invoked, in order, by the selected consumer.
    CTree sig roots | observed: MutatesData of the consumer handed to the receiver that feeds the root
          pipelines (fanoutconsumer.NewX over their capabilitiesNodes), and MutatesData advertised by each
          pipeline of the tree, pre-order. *)
+(* sessions: several deliveries through the same fan-out object *)
+Inductive wslabel :=
+| WDeliver (ro_in : bool) (c0 : list Z) (errs : list (list N))   (* ConsumeX is called with a new payload *)
+| WStep (d : nat) (l : wlabel).                                  (* delivery d: next consumer call / a write on a payload handed out in d *)
+
+Definition slabel_of (x : wslabel) : slabel :=
+  match x with
+  | WDeliver ro c0 _ => SDeliver ro c0
+  | WStep d l => SStep d (label_of l)
+  end.
+
+Fixpoint sess_errs (l : list wslabel) : list (list (list N)) :=
+  match l with
+  | [] => []
+  | WDeliver _ _ e :: r => e :: sess_errs r
+  | WStep _ _ :: r => sess_errs r
+  end.
+
+(* observation of one delivery: events, final content per consumer, IsReadOnly of its caller payload, error leaves *)
+Definition dobs := (list wev * (list (option (list Z)) * (bool * list N)))%type.
+
 Inductive vcase :=
 | CFan (sig : nat) (caps : list bool) (ro_in : bool) (c0 : list Z) (errs : list (list N)) (ls : list wlabel)
        (o_cap : bool) (o_evs : list wev) (o_final : list (option (list Z))) (o_ro0 : bool) (o_err : list N)
 | CPipe (sig : nat) (procs exps : list bool) (o_cap : bool)
 | CTree (sig : nat) (roots : list pipe) (o_recv_cap : bool) (o_caps : list bool)
-| CGraph (sig : nat) (tree : comp) (o_arr : list (nat * (nat * list Z))) (o_fin : list (nat * list Z))
+| CGraph (sig : nat) (ro_in : bool) (tree : comp) (o_arr : list (nat * (nat * list Z))) (o_fin : list (nat * list Z))
+| CSess (sig : nat) (caps : list bool) (script : list wslabel) (o_dels : list dobs)
 | CRouter (sig : nat) (pipe_caps : list bool) (sel : list nat) (o_cap o_default_cap : bool) (o_calls : list nat).
 
 Record fan_out := mkOut { f_cap : bool; f_evs : list wev; f_final : list (option (list Z)); f_ro0 : bool; f_err : list N }.
@@ -116,6 +144,18 @@ Definition obs_eqb (a b : nat * (nat * list Z)) : bool :=
   Nat.eqb (fst a) (fst b) && Nat.eqb (fst (snd a)) (fst (snd b)) && listZ_eqb (snd (snd a)) (snd (snd b)).
 Definition fin_eqb (a b : nat * list Z) : bool := Nat.eqb (fst a) (fst b) && listZ_eqb (snd a) (snd b).
 
+Definition model_sess (caps : list bool) (script : list wslabel) : list dobs :=
+  let f := new_fan caps in
+  map (fun me => let '(m, errs) := me in
+                 (wire_evs false (rev (elog m)),
+                  (map (view m) (seq 0 (length caps)), (is_ro (st m) 0, consume_err f errs))))
+      (combine (srun f (map slabel_of script)) (sess_errs script)).
+
+Definition dobs_eqb (a b : dobs) : bool :=
+  let '(e1, (f1, (r1, x1))) := a in
+  let '(e2, (f2, (r2, x2))) := b in
+  list_eqb wev_eqb e1 e2 && list_eqb (option_eqb listZ_eqb) f1 f2 && Bool.eqb r1 r2 && list_eqb N.eqb x1 x2.
+
 Definition check_case (c : vcase) : bool :=
   match c with
   | CFan _ caps ro_in c0 errs ls o_cap o_evs o_final o_ro0 o_err =>
@@ -126,12 +166,13 @@ Definition check_case (c : vcase) : bool :=
       && Bool.eqb (f_ro0 o) o_ro0
       && list_eqb N.eqb (f_err o) o_err
   | CPipe _ procs exps o_cap => Bool.eqb (pipeline_cap procs exps) o_cap
-  | CGraph _ tree o_arr o_fin =>
-      let '(s', ev) := run_graph tree [] in
+  | CGraph _ ro tree o_arr o_fin =>
+      let '(s', ev) := trun tree 0 [mkCell [] ro] in
       is_router tree && ok tree
       && list_eqb obs_eqb (canon_obs [0] ev) o_arr
       && list_eqb fin_eqb (final_obs s' ev) o_fin
       && match panics ev with [] => true | _ => false end
+  | CSess _ caps script o_dels => list_eqb dobs_eqb (model_sess caps script) o_dels
   | CRouter _ pcaps sel o_cap o_dcap o_calls =>
       Bool.eqb (fan_cap (router_fan pcaps sel)) o_cap
       && Bool.eqb (fan_cap (new_fan pcaps)) o_dcap
@@ -142,12 +183,14 @@ Definition check_case (c : vcase) : bool :=
 
 (* model outputs, for replay files *)
 Inductive mout := MFan (o : fan_out) | MCaps (l : list bool) | MCalls (c d : bool) (l : list nat)
+| MSess (l : list dobs)
 | MGraph (a : list (nat * (nat * list Z))) (f : list (nat * list Z)) (p : list nat).
 Definition model_out (c : vcase) : mout :=
   match c with
   | CFan _ caps ro_in c0 errs ls _ _ _ _ _ => MFan (model_fan caps ro_in c0 errs ls)
   | CPipe _ procs exps _ => MCaps [pipeline_cap procs exps]
-  | CGraph _ tree _ _ => let '(s', ev) := run_graph tree [] in MGraph (canon_obs [0] ev) (final_obs s' ev) (panics ev)
+  | CGraph _ ro tree _ _ => let '(s', ev) := trun tree 0 [mkCell [] ro] in MGraph (canon_obs [0] ev) (final_obs s' ev) (panics ev)
+  | CSess _ caps script _ => MSess (model_sess caps script)
   | CRouter _ pcaps sel _ _ _ => MCalls (fan_cap (router_fan pcaps sel)) (fan_cap (new_fan pcaps)) (router_calls pcaps sel)
   | CTree _ roots _ _ => MCaps (fan_cap (new_fan (map pipe_cap_t roots)) :: flat_map pipe_caps roots)
   end.
